@@ -57,7 +57,7 @@ Proof. induction l; simpl; congruence. Qed.
 
 Theorem dispatch_spec h s d : dispatch h s d = spec_trace h s d.
 Proof.
-  unfold dispatch, dispatch_gen, spec_trace. rewrite decorate_sub_spec.
+  unfold dispatch, spec_trace. rewrite decorate_sub_spec.
   pose proof (build_spec (s_chain s) (h_name h)
                 (fun c => ([EFn (h_fn h) c], fn_outcome h (d_out d))) (overlay (d_ctx d) h)) as Hb.
   simpl in Hb. rewrite Hb. clear Hb. unfold chain_outcome.
@@ -67,13 +67,14 @@ Proof.
   - rewrite <- (exits_add_apps _ (flat_map app_of (rev eff))), Ho.
     destruct outs as [|x l].
     + simpl. now rewrite <- !app_assoc.
-    + unfold publish_outs_gen.
+    + unfold publish_outs.
       destruct (h_pub h) as [id ty|?|?] eqn:Hp.
       * rewrite decorate_pub_spec, map_fst_pair. unfold base_pub. rewrite Hp. simpl.
         destruct (d_pb d); simpl; now rewrite <- !app_assoc.
       * rewrite decorate_pub_spec, map_fst_pair. unfold base_pub. rewrite Hp. simpl.
         rewrite app_nil_r. now rewrite <- !app_assoc.
-      * simpl. now rewrite <- !app_assoc.
+      * rewrite decorate_pub_spec, map_fst_pair. unfold base_pub. rewrite Hp. simpl.
+        rewrite app_nil_r. now rewrite <- !app_assoc.
   - rewrite <- (exits_add_apps _ (flat_map app_of (rev eff))), Ho. now rewrite <- !app_assoc.
   - rewrite <- (exits_add_apps _ (flat_map app_of (rev eff))), Ho. now rewrite <- !app_assoc.
 Qed.
@@ -591,7 +592,7 @@ Proof.
   rewrite (flat_map_map_nil fn_of) by reflexivity. rewrite (flat_map_map_nil fn_of) by reflexivity.
   rewrite (exits_nil fn_of) by reflexivity. simpl.
   destruct (chain_outcome h s d) as [[|x l]|?|]; try reflexivity.
-  destruct (h_pub h); try reflexivity; rewrite flat_map_app, (flat_map_map_nil fn_of) by reflexivity; reflexivity.
+  rewrite flat_map_app, (flat_map_map_nil fn_of) by reflexivity. now destruct (h_pub h).
 Qed.
 
 Definition expected_publish (h : hcfg) (s : started) (d : delivery) : list (N * N * list omsg) :=
@@ -607,7 +608,7 @@ Proof.
   rewrite (flat_map_map_nil pub_of) by reflexivity. rewrite (flat_map_map_nil pub_of) by reflexivity.
   rewrite (exits_nil pub_of) by reflexivity. simpl.
   destruct (chain_outcome h s d) as [[|x l]|?|]; try reflexivity.
-  destruct (h_pub h); try reflexivity; rewrite flat_map_app, (flat_map_map_nil pub_of) by reflexivity; reflexivity.
+  rewrite flat_map_app, (flat_map_map_nil pub_of) by reflexivity. now destruct (h_pub h).
 Qed.
 
 (** the one settlement is the one C02's [handle] prescribes for this chain result *)
@@ -619,7 +620,8 @@ Proof.
   rewrite (flat_map_map_nil settle_of) by reflexivity. rewrite (flat_map_map_nil settle_of) by reflexivity.
   rewrite (exits_nil settle_of) by reflexivity. simpl. unfold handled_ok. simpl.
   destruct (chain_outcome h s d) as [[|x l]|?|]; try reflexivity.
-  destruct (h_pub h); try reflexivity; rewrite flat_map_app, (flat_map_map_nil settle_of) by reflexivity; reflexivity.
+  rewrite flat_map_app, (flat_map_map_nil settle_of) by reflexivity.
+  destruct (h_pub h); reflexivity.
 Qed.
 
 Lemma handled_ok_is_handle pk pb (r : chain_result M) : cr_pre r = PreNone ->
@@ -691,10 +693,7 @@ Definition spec_order (h : hcfg) (s : started) (d : delivery) : list oev :=
   map (fun x => OSub x (ctx_of h)) (s_subdecs s)
   ++ map OEnter ids ++ [OFn] ++ match o with Panic => [] | _ => map OExit (rev ids) end
   ++ match o with
-     | Ret (_ :: _) => match h_pub h with
-                       | PReal _ _ => map OPubDec (s_pubdecs s) ++ [OPub]
-                       | PDisabled => map OPubDec (s_pubdecs s)
-                       | PNil => [] end
+     | Ret (_ :: _) => map OPubDec (s_pubdecs s) ++ match h_pub h with PReal _ _ => [OPub] | _ => [] end
      | _ => []
      end.
 
@@ -708,7 +707,7 @@ Proof.
   { unfold exits. destruct (chain_outcome h s d); try reflexivity; now apply c09_proj_map. }
   rewrite Hex, <- !app_assoc. do 4 f_equal.
   destruct (chain_outcome h s d) as [[|x l]|?|]; try reflexivity.
-  destruct (h_pub h); try reflexivity; rewrite c09_proj_app, (c09_proj_map _ OPubDec) by reflexivity; simpl; now rewrite ?app_nil_r.
+  rewrite c09_proj_app, (c09_proj_map _ OPubDec) by reflexivity. now destruct (h_pub h).
 Qed.
 
 Lemma effective_sound n chain r : In r (effective n chain) -> r_router r = true \/ r_hname r = n.
@@ -849,9 +848,20 @@ Proof.
   assert (Hex : forall ids o, filter keep (exits ids o) = exits ids o).
   { intros ids o. unfold exits. destruct o; try reflexivity; now apply Hall. }
   rewrite Hex.
-  match goal with |- context [filter keep ?R] => assert (Hrest : filter keep R = []) end.
+  assert (Hrest : filter keep
+    match chain_outcome h s d with
+    | Ret [] => [ESettle true]
+    | Ret ((_ :: _) as outs) =>
+        map (fun x : N => EPubDec x (h_pubtopic h) outs) (s_pubdecs s) ++
+        match h_pub h with
+        | PReal id _ => [EPublish id (h_pubtopic h) (map (fun m0 : M => (m0, out_ctx h (overlay (d_ctx d) h) m0, own_ctx d m0)) outs);
+                         ESettle (accepts (d_pb d))]
+        | _ => [ESettle false]
+        end
+    | _ => [ESettle false]
+    end = []).
   { destruct (chain_outcome h s d) as [[|x l]|?|]; try reflexivity.
-    destruct (h_pub h); try reflexivity; rewrite filter_app, Hnone by reflexivity; reflexivity. }
+    rewrite filter_app, Hnone by reflexivity. now destruct (h_pub h). }
   rewrite Hrest. now rewrite app_nil_r.
 Qed.
 
@@ -1195,25 +1205,16 @@ Theorem decorators_all ops :
   pubdecs (exec rinit ops) = pdecs_of ops /\ subdecs (exec rinit ops) = sdecs_of ops.
 Proof. destruct (pinv_all ops) as [_ _ _ H1 H2 _]. now split. Qed.
 
-(** * Round "proofs 2": a nil publisher is never wrapped, so nothing is called on it *)
+(** * Round "proofs 2": a nil publisher is replaced by the no-publisher stand-in: nothing is called on nil *)
 Theorem nil_publisher_never_closed h s : publisher_close_panics false h s = false.
 Proof. unfold publisher_close_panics. destruct (h_pub h); try reflexivity. now destruct (s_pubdecs s). Qed.
-Theorem nil_publisher_silent h s d : h_pub h = PNil ->
-  forall e, In e (dispatch h s d) -> match e with EPubDec _ _ _ | EPublish _ _ _ => False | _ => True end.
-Proof.
-  intros Hp e. rewrite dispatch_spec. unfold spec_trace. rewrite Hp. cbv zeta.
-  rewrite !in_app_iff. intros [H|[[H|[H|H]]|H]].
-  - apply in_map_iff in H as (x & <- & _). exact I.
-  - apply in_map_iff in H as (x & <- & _). exact I.
-  - destruct H as [<-|[]]. exact I.
-  - unfold exits in H.
-    destruct (chain_outcome h s d); try (destruct H; fail); apply in_map_iff in H as (x & <- & _); exact I.
-  - destruct (chain_outcome h s d) as [[|x l]|?|]; destruct H as [<-|[]]; exact I.
-Qed.
 Lemma nil_publisher_pinned_refuted :
-  let h := HC 12 1 7 22 PNil 33 3 in let s := ST [] [50%N] [] in
-  publisher_close_panics true h s = true
-  /\ dispatch_gen true h s (DL 1 22 cx0 (0%N, false) (Ret [1%N]) PubAccept)
-     = [EFn 3 (ctx_of h); EPubDec 50 33 [1%N]; ESettle false]
-  /\ dispatch h s (DL 1 22 cx0 (0%N, false) (Ret [1%N]) PubAccept) = [EFn 3 (ctx_of h); ESettle false].
-Proof. repeat split; reflexivity. Qed.
+  exists h s, publisher_close_panics true h s = true.
+Proof. exists (HC 12 1 7 22 PNil 33 3), (ST [] [50%N] []). reflexivity. Qed.
+(** a handler with a nil publisher behaves, message by message, like one added with AddNoPublisherHandler
+    whose function may return messages: decorators see the batch, nothing is published, Nack *)
+Theorem nil_publisher_trace h s d x l : h_pub h = PNil -> chain_outcome h s d = Ret (x :: l) ->
+  publish_calls (dispatch h s d) = [] /\ settles (dispatch h s d) = [false].
+Proof.
+  intros Hp Ho. apply (c08_no_publisher_output_nacks h s d x l); [|assumption]. intros id ty. rewrite Hp. discriminate.
+Qed.
